@@ -1,7 +1,7 @@
 #!/usr/bin/env python3
 """Driver for the runtime monitors of reed-solomon-simd (see DESIGN.md).
 
-  check.py <PROPERTY> [--tier quick|thorough] [--seed N]
+  check.py <PROPERTY> [--tier quick|thorough] [--seed N] [--only-stage a,b]
   check.py <PROPERTY> --replay <file>
   check.py --setup
 
@@ -357,6 +357,7 @@ def main():
     tier = os.environ.get("VERIF_TIER", "quick")
     seed = int(os.environ.get("VERIF_SEED", "0") or 0)
     rp = None
+    only = None
     i = 1
     while i < len(args):
         if args[i] == "--tier":
@@ -365,6 +366,8 @@ def main():
             seed = int(args[i + 1])
         elif args[i] == "--replay":
             rp = args[i + 1]
+        elif args[i] == "--only-stage":
+            only = args[i + 1].split(",")
         else:
             print(f"unknown argument {args[i]}")
             return 2
@@ -375,6 +378,8 @@ def main():
         t0 = time.time()
         results = []
         for idx, stage in enumerate(PROPERTIES[prop][tier]):
+            if only and stage["name"] not in only:
+                continue  # debugging aid: a subset of the tier's stages
             results.append(run_stage(prop, stage, tier, seed, idx))
         return decide(prop, tier, seed, results, t0)
     except BuildError as e:
